@@ -135,3 +135,7 @@ Definition emb_common_run (i : emb_in cstore) : emb_out cstore :=
 Definition cstore_eqb (x y : cstore) : bool :=
   tab_eqb Z.eqb (q_dep x) (q_dep y) && tab_eqb (pair_eqb Z.eqb Z.eqb) (r_dep x) (r_dep y).
 Definition emb_common_eqb := emb_out_eqb cstore_eqb.
+
+(* the four method tables of embedded.go as dumped by the verif hook: nested *)
+From ZV Require Import VmReceiveProofs.
+Definition method_tables_run (ts : list (list (bytes * bytes))) : bool := mt_chain ts.
